@@ -10,6 +10,7 @@
 EXTENDS GroupChain, Json
 
 CONSTANTS Depth, Forks, Concs,
+          SplitLock,  \* BOOLEAN: FALSE = as coded; TRUE = the fork switch takes the lock per removed group (negative control)
           Early   \* BOOLEAN: FALSE = as coded; TRUE = predecessor compared before the lock (negative control)
 VARIABLE hist
 gvars == <<vars, hist>>
@@ -66,6 +67,19 @@ GenConc(g, p, b, first) ==
   /\ hist' = Append(hist, [op |-> "Conc", g |-> g, pre |-> p, ids |-> <<>>, pres |-> <<>>, b |-> b, first |-> first])
 ConcBs == {[op |-> "Remove", g |-> 0, pre |-> 0]} \cup {[op |-> "Add", g |-> g, pre |-> p] : g \in Ids, p \in AllIds}
 
+(* an add that overlaps a fork switch removing at least two groups (see GroupChain!ConcForkOutcomes);
+   it names the group below the top one, the last group once the first removal is done *)
+GenConcFork(anc, ids, g, j) ==
+  /\ pc = "idle" /\ Len(hist) = Depth - 1 /\ store[anc].present
+  /\ count - store[anc].height - 1 >= 2
+  /\ LET a == [g |-> g, pre |-> store[last].pre]
+         pres == [i \in 1..Len(ids) |-> 98]
+     IN /\ IF SplitLock
+             THEN Apply(ConcForkSplit(store, hidx, count, last, anc, ids, pres, a))
+             ELSE Apply(ConcForkAt(store, hidx, count, last, anc, ids, pres, a, j))
+        /\ hist' = Append(hist, [op |-> "ConcFork", g |-> anc, pre |-> 0, ids |-> ids, pres |-> pres,
+                                 b |-> [op |-> "Add", g |-> g, pre |-> a.pre], first |-> "park", j |-> j])
+
 ForkSeqs == {<<a>> : a \in Ids} \cup {s \in Ids \X Ids : s[1] # s[2]}
 
 GenNext ==
@@ -74,6 +88,7 @@ GenNext ==
      \/ \E anc \in AllIds, ids \in ForkSeqs : Forks /\ GenFork(anc, ids)
      \/ \E anc \in AllIds, ids \in ForkSeqs, p2 \in AllIds : Forks /\ Len(hist) = Depth - 1 /\ GenForkBent(anc, ids, p2)
      \/ \E g \in Ids, p \in AllIds, b \in ConcBs, first \in {"a", "b"} : Concs /\ GenConc(g, p, b, first)
+     \/ \E anc \in AllIds, ids \in ForkSeqs, g \in Ids, j \in 0..2 : Concs /\ j <= Len(ids) /\ GenConcFork(anc, ids, g, j)
      \/ \E g \in Ids, p \in AllIds : GenAddRejected(g, p)
      \/ GenRemove
      \/ GenRestart
